@@ -55,6 +55,7 @@ pzgstrf_snode_dfs(
     xlsub                 = Glu->xlsub;
     xlsub_end             = Glu->xlsub_end;
     nsuper = NewNsuper(pnum, pxgstrf_shared, &Glu->nsuper);
+    SLU_MT_VEV(VE_NEWSUPER, pnum, jcol, nsuper);
     Glu->xsup[nsuper]     = jcol;
     Glu->xsup_end[nsuper] = kcol + 1;
     
@@ -76,6 +77,7 @@ pzgstrf_snode_dfs(
 				pxgstrf_shared)) )
 	return mem_error;
     
+    SLU_MT_VEV(VE_LSUB_ALLOC, pnum, jcol, ito);
     xlsub[jcol] = ito;
     lsub        = Glu->lsub;
     for (ifrom = 0; ifrom < nextl; ++ifrom)
